@@ -26,6 +26,8 @@ def svc(sid, name):
     return (sid, {"X": 1, "Y": 2}[name], 1, 0)
 
 
+OPT_A = refcodec.v4("192.0.2.41", 30501)
+OPT_B = refcodec.v4("192.0.2.41", 30502, proto=6)
 MSGS = {
     # name -> list of (service name, ttl)
     "offX1": [("X", 1)], "offX2": [("X", 2)], "offXinf": [("X", INF)], "stopX": [("X", 0)],
@@ -146,7 +148,15 @@ class Sys(e1.TimedSys):
             entries = []
             for sname, ttl in MSGS[name]:
                 s = svc(self.sid, sname)
-                entries.append(("offer", s[0], s[1], s[2], ttl, s[3], (), ()))
+                # offers carry endpoint options, packed differently from message to message (both in run 1 / one in each
+                # run); stop-offers carry none: the identity of an offered service is its ids
+                if ttl == 0:
+                    r1, r2 = (), ()
+                elif ttl == 1:
+                    r1, r2 = (OPT_A, OPT_B), ()
+                else:
+                    r1, r2 = (OPT_A,), (OPT_B,)
+                entries.append(("offer", s[0], s[1], s[2], ttl, s[3], r1, r2))
                 key = (src, sname)
                 if not uflag:
                     continue
